@@ -20,7 +20,7 @@ import (
 )
 
 type Manager struct {
-	mu sync.Mutex
+	mu managerMutex
 
 	stopChannel        chan chan error
 	storage            Storage
